@@ -500,8 +500,11 @@ def main():
     T = rep.tier == "thorough"
     n = 4 if T else 3
     items = []
+    heavy = ("frontiers", "loops", "is_reducible", "dominator_tree", "acyclic", "unreachable", "pre_order")
     for alg in ALGS:
         roots = (0, n - 1) if ALGS[alg][1] else (0,)
+        if T and alg in heavy:
+            roots = roots[:1]          # 4 vertices, all 16 edges: one root for the algorithms built on the ones run with both roots
         for root in roots:
             if T:
                 # split the path space on the root's outgoing edges so that the work spreads over the cores
